@@ -1177,6 +1177,9 @@ class DiscretizedSpaceElement(Tensor):
             except TypeError:
                 axis = (int(axis),)
 
+            # Normalize negative axes
+            axis = tuple(int(ax) + self.ndim if int(ax) < 0 else int(ax)
+                         for ax in axis)
             reduced_axes = [i for i in range(self.ndim) if i not in axis]
 
         # --- Evaluate ufunc --- #
